@@ -27,7 +27,7 @@ def cases(ctx):
             dml = rng.choice(['SELECT a FROM t', 'INSERT INTO t VALUES (1)', 'UPDATE t SET a = 1', 'DELETE FROM t'])
             n = rng.randint(1, 3)
             ctes = ', '.join('c%d AS (SELECT %d)' % (i, i) for i in range(n))
-            text = rng.choice(['WITH ', 'with ', 'With\n']) + ctes + rng.choice([' ', '\n']) + dml
+            text = rng.choice(['WITH ', 'with ', 'With\n']) + rng.choice(['', '', 'RECURSIVE ', 'recursive\n', '/* c */ ']) + ctes + rng.choice([' ', '\n', ' -- c\n', ' /* c */ ']) + dml
             want = dml.split()[0]
         elif r < 0.85:
             k = rng.choice(['DROP', 'ALTER', 'TRUNCATE', 'MERGE', 'REPLACE', 'CREATE', 'SELECT', 'INSERT', 'UPDATE', 'DELETE', 'UPSERT'])
